@@ -1745,6 +1745,7 @@ func c22Execute(c *vcommon.Case, p *c22Params) (observed map[string]int) {
 	c22ReportMu.Lock()
 	defer c22ReportMu.Unlock()
 	c.Count("conflicts_attributed_to_C22-K1", len(v.KnownK1))
+	observed["conflicts_attributed_to_C22-K1"] = len(v.KnownK1)
 	for _, x := range v.KnownK1 {
 		c.Known("C22-K1", "two blocks on different forks were finalised in different rounds, each by a genuine "+
 			"supermajority: honest voters precommitted the first block and voted for another fork in a later round",
@@ -1823,7 +1824,7 @@ func c22TallyRaceCase(c *vcommon.Case) {
 			break
 		}
 	}
-	c.Eval(reads)
+	c.Eval(iterations)
 	c.Count("tally_race_reads", reads)
 	c.Count("script:tally-race", 1)
 	if maxSeen > 2 {
@@ -1902,10 +1903,12 @@ func TestVerifC22(t *testing.T) {
 	r.Fixed("stop", 1, c22StopCase)
 	r.Floor("script:tally-race", 1)
 	r.Fixed("tally-race", 1, c22TallyRaceCase)
-	// a scenario whose forged message could not be placed (a node was not where the script needs it: timing) is
-	// run again, at most 3 times; every attempt is checked like any other execution
-	needs := map[string]string{"fork-commit-exact-two-thirds": "delivered:commit script-exact",
-		"fork-commit-dup-authority": "delivered:commit script-dup", "fork-commit-garbage-pairs": "delivered:commit script-garbage",
+	// a scenario that did not reach its situation (forged message not placed, or for the C22-K1 witness no
+	// conflict: a node was not where the script needs it, timing) is run again, at most 3 times; every attempt is
+	// checked like any other execution
+	needs := map[string]string{"estimate-not-carried-over": "conflicts_attributed_to_C22-K1",
+		"fork-commit-exact-two-thirds": "delivered:commit script-exact",
+		"fork-commit-dup-authority":    "delivered:commit script-dup", "fork-commit-garbage-pairs": "delivered:commit script-garbage",
 		"fork-commit-non-authorities": "delivered:commit script-outsiders", "fork-votes-garbage-sig": "delivered:script-garbage-sig",
 		"fork-votes-non-authorities": "delivered:script-non-authority"}
 	r.Fixed("script", len(c22ScriptNames), func(c *vcommon.Case) {
@@ -1916,7 +1919,7 @@ func TestVerifC22(t *testing.T) {
 			if need := needs[p.Script]; need == "" || obs[need] > 0 {
 				break
 			}
-			c.Count("script_attempt_without_the_forged_message", 1)
+			c.Count("script_attempt_that_did_not_reach_its_situation", 1)
 		}
 	})
 	// one case = a batch of executions that run side by side (an execution mostly waits for the services' timers)
